@@ -80,6 +80,10 @@ Sites == <<
     "sig.alg.0.hash+sig.alg.0.sign"),
   S("signature_pair_in_key_exchange", "parse_content_and_signature", [NoArgs EXCEPT !.sub = "ecdh", !.ext = 1], <<3, 0, 23, 1, 4>>, 2, <<0, 1, 9>>,
     "sig.alg.0.hash+sig.alg.0.sign"),
+  (* the content type of a raw / encrypted record of the maximum length *)
+  S("record_type_encrypted_len_16640", "parse_tls_encrypted", NoArgs, <<>>, 1, <<3, 3, 65, 0>> \o Fill(7, 16640), "hdr.ct"),
+  S("record_type_raw_len_16640", "parse_tls_raw_record", NoArgs, <<>>, 1, <<3, 4, 65, 0>> \o Fill(8, 16640) \o <<22, 3>>, "hdr.ct"),
+  S("record_type_encrypted_len_16385", "parse_tls_encrypted", NoArgs, <<>>, 1, <<3, 1, 64, 1>> \o Fill(9, 16385), "hdr.ct"),
   (* sibling fields: a field's value is preserved whatever its neighbours say *)
   HsS("server_hello_compression_tls13_cipher", 2, <<3, 3>> \o R32 \o <<0, 19, 1>>, 1, <<>>, "m.comp"),
   HsS("server_hello_compression_unlisted_cipher", 2, <<3, 3>> \o R32 \o <<0, 255, 255>>, 1, <<>>, "m.comp"),
@@ -104,7 +108,8 @@ NSites == Len(Sites)
 (* the accessor of each site on the specification's (content-mode) value *)
 Acc(site, v) ==
   CASE site \in {"record_version_raw", "record_version_plaintext", "record_version_encrypted"} -> v.hdr.ver
-    [] site \in {"record_type_raw", "record_type_encrypted", "record_type_raw_sslv2_lookalike", "record_type_encrypted_sslv2_lookalike"} -> v.hdr.ct
+    [] site \in {"record_type_raw", "record_type_encrypted", "record_type_raw_sslv2_lookalike", "record_type_encrypted_sslv2_lookalike",
+                 "record_type_encrypted_len_16640", "record_type_raw_len_16640", "record_type_encrypted_len_16385"} -> v.hdr.ct
     [] site \in {"record_type_header", "dtls_record_type"} -> v.ct
     [] site = "dtls_record_version" -> v.ver
     [] site \in {"client_hello_version", "hello_retry_version", "client_hello_version_with_extensions"} -> v.m.ver
